@@ -6,6 +6,10 @@ props = [json.loads(l) for l in open(os.path.join(ROOT, 'properties.jsonl'))]
 
 # id -> (technique, level text, level note, design ref)
 CHECKS = {
+ 'C11': ("Shared.tla (read-only operations on one schema; ReadOnly and SameAsAlone invariants over all interleavings of 3 goroutines, faulty writer as non-vacuity witness) + Shared_Trace on real runs: results equal the call run alone on a pristine schema, canonical deep snapshots of the schema graph equal before/after, no race-detector report; forced interleavings through hook H3",
+         "Per run: 2/8 schemas x (4/12 single-threaded histories of 30/75 calls with a snapshot around every call; goroutine runs with 2..8 / 2..32 goroutines in a child process built with -race; all 20 / 70 interleavings of two validations at walkSelection granularity). Calls are random mixes of parse+validate (valid, faulty, type-blind), variable coercion, argument resolution and schema formatting.",
+         "Data-race freedom is decided by the Go race detector on the schedules that occur; the snapshot is a reflective walk of everything reachable from *ast.Schema (including spare slice capacity).", "4/C11"),
+
  'C02': ("FragTraversal.tla (visits under the Global / OnPath memo disciplines, linearity model-checked on all 3-fragment graphs) + Total2_Trace: every LoadSchema / Validate call runs in a crash-isolated child process; hook-H2 recursion step counters per site are checked against polynomial bounds in the document size",
          "1,000 (quick) / 17,000 (thorough) cases: LoadSchema on generated valid / faulty / hand-written / grammar-directed type-blind SDL; Validate on typed valid, fault-injected and type-blind documents; 17 adversarial families at 4 / 6 sizes (fragment fan-out under introspection, fields, top level, subscriptions; cycles through fields; fragments spreading each other while overlapping; exclusive-then-shared comparisons; deep aliases; wide same-name selection sets). A crash, fatal stack exhaustion or 20 s silence is attributed to its input; a hard budget of 30 million steps per site turns exponential blow-up into a deterministic verdict.",
          "Termination / no-panic are observations of the Go runtime; time is bounded through step counters, not seconds; polynomial bounds are generous (degree 4 for the merge rule).", "4/C02"),
